@@ -110,7 +110,8 @@ def run_case(case: dict[str, Any], root: str, store: str, fmt: str) -> dict[str,
                     os.unlink(os.path.join(src, m.group(1)))
         flags = re.search(r"# flags: (.*)$", text, flags=re.M)
         f2 = re.search(r"# flags%d: (.*)$" % step, text, flags=re.M) if step > 1 else None
-        flag_list = ((f2 or flags).group(1).split() if (f2 or flags) else []) + ["--no-site-packages", "--no-error-summary"]
+        flag_list = [x for x in ((f2 or flags).group(1).split() if (f2 or flags) else []) if x not in ("-v", "-vv", "--verbose")]
+        flag_list += ["--no-site-packages", "--no-error-summary"]
         if any(x.startswith("--cache-dir") or x.startswith("--config-file") or x in ("--no-incremental",) for x in flag_list):
             out["skipped"] = "flags move the cache / config"
             return out
